@@ -297,6 +297,8 @@ fn execute(plan: &Value, w: &World, cfg: &Cfg, slot: usize) -> Outcome {
         Some("text") => Some(OLD_TEXT.to_vec()),
         // longer than anything the endpoint serves: leftovers show if the file is not truncated
         Some("long-text") => Some(OLD_TEXT.repeat(7000)),
+        // an old schema saved by a tool that writes UTF-16 / Latin-1: not valid UTF-8
+        Some("not-utf8") => Some(vec![0xff, 0xfe, b'{', 0, b'"', 0, b'd', 0, b'a', 0, b't', 0, b'a', 0, b'"', 0, b':', 0, b'n', 0, b'u', 0, b'l', 0, b'l', 0, b'}', 0, 0xe9, 0x0a]),
         // what will be served, except for a member outside `data` (a file from an earlier run
         // against the same server): the new reply must still replace it
         Some("stale-same-data") => {
